@@ -357,6 +357,8 @@ def _renames(prog: Program, fn: Func, y: ast.AST, depth: int = 0) -> bool:
         return False
     if isinstance(y, ast.Call):
         d = prog.dotted(y.func) or ""
+        if d in ("ast.Import", "ast.ImportFrom"):
+            return False    # an import statement rebuilt: what an import binds for OTHER files is R8.6's business, not a renamed definition
         if d.startswith("ast.") and any(k.arg in NAME_FIELDS for k in y.keywords):
             return True
     if isinstance(y, ast.Name):
